@@ -12,6 +12,8 @@ import Penguin.Lemmas.BindStim
 import Penguin.Lemmas.PairCor
 import Penguin.Lemmas.PairHarness
 import Penguin.Lemmas.BindAllReach
+import Penguin.Lemmas.BindAllReach3
+import Penguin.Lemmas.BindAllConv
 
 namespace Penguin.C15
 open Penguin Penguin.Mux
@@ -544,5 +546,133 @@ example :
     let q := runB { p := PairAll.init {} allB [7, 8, 11] [9, 10] } hist3
     q.ha = [.asked 1 7 .stream [97] 80, .asked 2 8 .datagram [98] 81, .done 2 .accepted, .done 1 .refused] ∧
     q.hb = [.shown 0 7 .stream [97] 80, .shown 1 8 .datagram [98] 81, .replied 1 true, .replied 0 false] := by decide
+
+
+/-! ### `false` only if not accepted, or ended — every history
+
+The second layer of the invariant (`Lemmas/BindAllFacts2.lean`, `BindAllInv3.lean`, `BindAllReach3.lean`): every
+`Reset x` travelling back to the side that asked with `x` is backed (the answering endpoint takes no binds; or
+its `Multiplexor` was dropped; or a `BindRequest` of `x` was shown and rejected, or dropped unanswered); the flags
+of an endpoint are tied to its observer's record (`Loc`); while `x` is still in a script no `Reset x` travels. -/
+
+open Penguin.BindAll Penguin.PairAll in
+/-- `false` ONLY IF one of four things happened — in every history.  If bind request number `req` of side `a`
+    resolved `refused`, then `a` made a request number `req` that drew a flow id `x` and asked `(bt, host, port)`,
+    and at least one of:
+    (d) `a`'s own connection task has finished (`dead`: the peer or the transport ended the connection, an
+        invalid frame arrived, or `a`'s `Multiplexor` was dropped and the wind-down completed — pending
+        requests are refused by the wind-down's last step and by nothing else local: the model's other local
+        cause, `closeFlow` on a dropped-handle notification for the id, CANNOT happen for a bind id, since no
+        stream object ever carries it — `pair_bind_id_carries_no_stream_every_history`; dropping `a`'s
+        `Multiplexor` by itself refuses nothing until the task finishes);
+    (a) `b`'s endpoint takes no binds (`bind_buffer_size = 0`);
+    (b) `b`'s `Multiplexor` had been dropped (queued / arriving requests reject themselves);
+    (c) `b`'s application was shown a `BindRequest` (number `k`) with exactly `x`, `bt`, `host`, `port` and
+        called `reply(false)` on it, or dropped it WITHOUT EVER replying to it (no `reply` on `k` went
+        through, before or after: a dropped `BindRequest` takes no reply).
+    Both directions.
+
+    `_partial`: the full statement would say in (c) "`reply(false)` with no `reply(true)` on that same
+    `BindRequest` BEFORE it" (`BindRequest::reply` takes `&self`, so an application can answer twice; the
+    first answer is the one that counts: the requester's slot is gone when the second arrives).  That needs an
+    ordering argument on the return path — the `Finish` of an earlier `reply(true)` is ahead of the `Reset` on a
+    FIFO wire that loses only suffixes, and processing it releases the slot — for which the atomic steps of
+    `Lemmas/BindAllView.lean` are too permissive: `Shrinks` lets the view drop inbox items and release slots
+    silently (sound for everything proved here, but it lets a view "lose" that `Finish`).  Missing: a guarded
+    pop (no silent pop of a `Finish x` / `Reset x` while `x`'s slot is `BindRequested`), the re-proof of the
+    `BSim` lemmas that pop, and an invariant "if the first recorded decision on `x` is `reply(true)` and the
+    slot of `x` is pending, the first `Finish x` / `Reset x` on the LIVE return path is a `Finish`". For the
+    drop the strong form IS proved (`dropped k` and no `replied k _` at all). -/
+theorem pair_bind_false_only_if_not_accepted_or_ended_partial (oa ob : Opts) {ra rb : List Nat} (cfg : PairAll.Cfg ra rb)
+    (l : List (PairAll.Side × PairAll.Stim)) (req : Nat) :
+    let q := runB { p := PairAll.init oa ob ra rb } l
+    (BEv.done req .refused ∈ q.ha →
+      ∃ x bt host port, BEv.asked req x bt host port ∈ q.ha ∧
+        (q.p.a.dead = true ∨ ob.bindCap = 0 ∨ BEv.muxDropped ∈ q.hb ∨
+         ∃ k, BEv.shown k x bt host port ∈ q.hb ∧
+           (BEv.replied k false ∈ q.hb ∨ (BEv.dropped k ∈ q.hb ∧ ∀ acc, BEv.replied k acc ∉ q.hb)))) ∧
+    (BEv.done req .refused ∈ q.hb →
+      ∃ x bt host port, BEv.asked req x bt host port ∈ q.hb ∧
+        (q.p.b.dead = true ∨ oa.bindCap = 0 ∨ BEv.muxDropped ∈ q.ha ∨
+         ∃ k, BEv.shown k x bt host port ∈ q.ha ∧
+           (BEv.replied k false ∈ q.ha ∨ (BEv.dropped k ∈ q.ha ∧ ∀ acc, BEv.replied k acc ∉ q.ha)))) := by
+  intro q
+  have h : Inv3 (absB q) := reach_inv3 oa ob cfg l
+  have hcap := runB_caps { p := PairAll.init oa ob ra rb } l
+  -- one direction, for a pair of views with its invariant
+  have one : ∀ (c : BC), Inv3 c → ∀ cap, c.b.bindCap = cap → BEv.done req .refused ∈ c.ga →
+      ∃ x bt host port, BEv.asked req x bt host port ∈ c.ga ∧
+        (c.a.dead = true ∨ cap = 0 ∨ BEv.muxDropped ∈ c.gb ∨
+         ∃ k, BEv.shown k x bt host port ∈ c.gb ∧
+           (BEv.replied k false ∈ c.gb ∨ (BEv.dropped k ∈ c.gb ∧ ∀ acc, BEv.replied k acc ∉ c.gb))) := by
+    intro c hc cap hcp hd
+    obtain ⟨x, bt, host, port, ha, hw⟩ := hc.l.glob3 req hd
+    refine ⟨x, bt, host, port, ha, ?_⟩
+    rcases hw with hw | hw | hw | ⟨k, bt', host', port', hs, hk⟩
+    · exact Or.inl hw
+    · exact Or.inr (Or.inl (hcp ▸ hw))
+    · exact Or.inr (Or.inr (Or.inl hw))
+    · obtain ⟨req', ha'⟩ := hc.base.l.asked x bt' host' port' (Or.inr (Or.inr (Or.inr ⟨k, hs⟩)))
+      have h1 : (sm x c).asA = 1 := ((hc.base.num x).l.binda (one_le_asked ha)).1
+      obtain ⟨_, e1, e2, e3⟩ := asked_unique (by simp only [sm] at h1; omega) ha ha'
+      subst e1 e2 e3
+      exact Or.inr (Or.inr (Or.inr ⟨k, hs, hk⟩))
+  exact ⟨one (absB q) h ob.bindCap hcap.2, one (absB q).swap h.swap oa.bindCap hcap.1⟩
+
+/-! Non-vacuity: one run per cause (`a` asks once, flow id 7). -/
+private def askB : PairAll.Side × PairAll.Stim := (.A, .call (.bindReq 5 .stream [97] 81))
+
+open Penguin.BindAll Penguin.PairAll in
+/-- (a) `b` takes no binds: the `Bind` frame is answered with `Reset` by `b`'s task; nothing is shown. -/
+example :
+    let q := runB { p := PairAll.init {} {} [7, 8, 11] [9, 10] } [askB, (.B, .deliver), (.A, .deliver)]
+    q.ha = [.asked 5 7 .stream [97] 81, .done 5 .refused] ∧ q.hb = [] ∧ q.p.a.dead = false := by decide
+
+open Penguin.BindAll Penguin.PairAll in
+/-- (b) `b`'s `Multiplexor` is dropped while the request waits in its bind queue. -/
+example :
+    let q := runB { p := PairAll.init {} allB [7, 8, 11] [9, 10] } [askB, (.B, .deliver), (.B, .call .dropMux), (.A, .deliver)]
+    q.ha = [.asked 5 7 .stream [97] 81, .done 5 .refused] ∧ q.hb = [.muxDropped] ∧ q.p.a.dead = false := by decide
+
+open Penguin.BindAll Penguin.PairAll in
+/-- (c) rejected: `b`'s application is shown the request and calls `reply(false)`. -/
+example :
+    let q := runB { p := PairAll.init {} allB [7, 8, 11] [9, 10] }
+      [askB, (.B, .deliver), (.B, .call .bindNext), (.B, .call (.bindReply 0 false)), (.A, .deliver)]
+    q.ha = [.asked 5 7 .stream [97] 81, .done 5 .refused] ∧ q.hb = [.shown 0 7 .stream [97] 81, .replied 0 false] ∧
+    q.p.a.dead = false := by decide
+
+open Penguin.BindAll Penguin.PairAll in
+/-- (c) dropped unanswered: `b`'s application is shown the request and drops it. -/
+example :
+    let q := runB { p := PairAll.init {} allB [7, 8, 11] [9, 10] }
+      [askB, (.B, .deliver), (.B, .call .bindNext), (.B, .call (.bindDrop 0)), (.A, .deliver)]
+    q.ha = [.asked 5 7 .stream [97] 81, .done 5 .refused] ∧ q.hb = [.shown 0 7 .stream [97] 81, .dropped 0] ∧
+    q.p.a.dead = false := by decide
+
+-- (d) the connection ended first: `hist2` above (`b` ACCEPTED, the `Finish` was lost in a cut, `a`'s task is dead) —
+-- of the four causes only (d) holds there.
+
+
+open Penguin.BindAll Penguin.PairAll in
+/-- The converse, as a sanity lemma (one endpoint step): if the oldest message in transit to side `a` is the
+    `Finish x` of an accepted request, `a`'s task is running and idle (not finished, not winding down, receive
+    loop not parked, nothing buffered, source alive) and `a` holds the pending bind request `req` under `x`, then
+    delivering it (if the stimulus is enabled) records `done req accepted`: an accepted request whose answer
+    reaches a running requester resolves `true`.  Any state `q`, reachable or not. -/
+theorem pair_bind_delivered_accept_resolves_true (q : PB) (x req : Nat) (rest : List Msg)
+    (hba : q.p.ba = .frame (.finish x) :: rest) (hs : lookup q.p.a.flows x = some (.bindRequested req))
+    (hd : q.p.a.dead = false) (hdr : q.p.a.draining = none) (hc : q.p.a.closing = none) (hp : q.p.a.park = none)
+    (hi : q.p.a.inbox = []) (hse : q.p.a.srcEnded = false) (hen : (PairAll.stepL q.p .deliver).isSome = true) :
+    BEv.done req .accepted ∈ (stepB q .A .deliver).ha :=
+  delivered_finish_recorded q x req rest hba hs hd hdr hc hp hi hse hen
+
+-- non-vacuity: the state of `hist1` before its last stimulus meets every hypothesis
+open Penguin.BindAll Penguin.PairAll in
+example :
+    let q := runB { p := PairAll.init {} allB [7, 8, 11] [9, 10] } (hist1.take 11)
+    q.p.ba = [.frame (.finish 8)] ∧ lookup q.p.a.flows 8 = some (.bindRequested 5) ∧ q.p.a.dead = false ∧
+    q.p.a.draining = none ∧ q.p.a.closing = none ∧ q.p.a.park = none ∧ q.p.a.inbox = [] ∧ q.p.a.srcEnded = false ∧
+    (PairAll.stepL q.p .deliver).isSome = true := by decide
 
 end Penguin.C15
